@@ -105,6 +105,22 @@ theorem simL {s1 s1' : Sys1 N} {s0 : Sys N}
   | sendBeat i dst hl => exact sim_sendBeat r i dst hl
   | beat j src t c hm ht hnl => exact sim_beat r j src t c hm ht hnl
 
+/-- `sim_snapIgnore` with the weaker premise it really uses (a positive commit index) -/
+theorem sim_snapSkip {s1 : Sys1 N} {s0 : Sys N} (r : R s1 s0) (j src : Fin N) (t k : Nat) (ents : Log)
+    (hm : s1.net (.snap t src j k ents)) (ht : (s1.nodes j).term = t) (hnl : (s1.nodes j).role ≠ .leader)
+    (hpos : 0 < (s1.nodes j).commit) :
+    ∃ s0', StepNQ? s0 s0' ∧ R ⟨upd1 s1.nodes j (followN (s1.nodes j) src), send s1 fun m => m = .appResp t j src (s1.nodes j).commit false⟩ s0' := by
+  obtain ⟨h1, _, cm, _, hae⟩ := r.net.msnap _ _ _ _ _ hm
+  refine ⟨doAckCommitted s0 j src t, Or.inr (StepNQ.ackCommitted s0 j src t 0 0 ents cm hae
+    (by rw [r.term]; exact ht) (by rw [r.role]; exact hnl) (by rw [r.commit]; omega)), ?_⟩
+  have hmm : ∀ m, s0.msgs m → (doAckCommitted s0 j src t).msgs m := fun _ h => Or.inl h
+  have ha : ∀ t' j' n, s0.acks t' j' n → (doAckCommitted s0 j src t).acks t' j' n := fun _ _ _ h => Or.inl h
+  refine r.rebuild j _ _ ?_ hmm ha ((r.net.mono hmm ha).add_appResp _ _ _ _ _ fun _ => ?_) ?_
+  · simp only [doAckCommitted, ← r.nodes j]; rfl
+  · right; rw [r.commit]; exact ⟨rfl, rfl, rfl⟩
+  · have o := (r.node j).mono hmm ha
+    refine ⟨o.voted, ?_, ?_, ?_⟩ <;> simp [followN]
+
 structure SysC (N : Nat) where
   l1 : Sys1 N
   applied : Fin N → Nat
@@ -153,6 +169,10 @@ inductive StepC (c0 : RQJ.Config) : SysC N → SysC N → Prop
 | forget (s : SysC N) (i : Fin N) (m' : Fin N → Nat) (h : ∀ j, m' j = (s.l1.nodes i).matchI j ∨ m' j = 0) :
     StepC c0 s (s.setNode i { (s.l1.nodes i) with matchI := m' })
 | restart (s : SysC N) (i : Fin N) (a : Nat) (ha : a ≤ s.applied i) : StepC c0 s (cRestart s i a)
+/-- MsgSnap whose `ConfState` does not contain the receiver (`restore`: "not in the ConfState"): ignored, answered with the commit index -/
+| snapSkip (s : SysC N) (j src : Fin N) (t k : Nat) (ents : Log) (hm : s.l1.net (.snap t src j k ents))
+    (ht : (s.l1.nodes j).term = t) (hnl : (s.l1.nodes j).role ≠ .leader) (hpos : 0 < (s.l1.nodes j).commit) :
+    StepC c0 s { s with l1 := ⟨upd1 s.l1.nodes j (followN (s.l1.nodes j) src), send s.l1 fun m => m = .appResp t j src (s.l1.nodes j).commit false⟩ }
 
 /-- the relation between an L1C state and a state of the protocol model -/
 structure RC (s : SysC N) (cs : CSys N) : Prop where
@@ -208,22 +228,29 @@ theorem nq_cstep {c0 : RQJ.Config} {cs : CSys N} {b' : Sys N} (h : StepNQ cs.bas
 theorem RC.flags {s : SysC N} {cs : CSys N} (rc : RC s cs) (i : Fin N) : pendingFlags cs i = pendingFlagsC (s.node i) := by
   unfold pendingFlags pendingFlagsC SysC.node; rw [rc.r.log, rc.r.commit, rc.applied]
 
+/-- an L1 move simulated by at most one quorum-free L0 step, read on the protocol model -/
+theorem simC_nq {c0 : RQJ.Config} {s : SysC N} {cs : CSys N} (rc : RC s cs) {l1' : Sys1 N}
+    (hs : ∃ b', StepNQ? cs.base b' ∧ R l1' b') :
+    ∃ cs', (cs' = cs ∨ ∃ lab, CStep c0 lab cs cs') ∧ RC { s with l1 := l1' } cs' := by
+  obtain ⟨b', hst, r'⟩ := hs
+  rcases hst with e | hnq
+  · subst e
+    refine ⟨cs, Or.inl rfl, ⟨r', rc.applied, fun i hi => rc.pend i ?_⟩⟩
+    rw [← rc.r.role]; rw [← r'.role] at hi; exact hi
+  · obtain ⟨cs', cst, hb, hap, hp⟩ := nq_cstep (c0 := c0) hnq
+    refine ⟨cs', Or.inr ⟨_, cst⟩, ⟨by rw [hb]; exact r', fun i => by rw [hap]; exact rc.applied i, fun i hi => ?_⟩⟩
+    have hi' : (b'.nodes i).role = .leader := by rw [← hb, (show R _ cs'.base from by rw [hb]; exact r').role]; exact hi
+    obtain ⟨e1, e2⟩ := hp i hi'
+    rw [e1]; exact rc.pend i (by rw [← rc.r.role]; exact e2)
+
 /-- **one L1C step is at most one step of the protocol model** -/
 theorem simC {c0 : RQJ.Config} {s s' : SysC N} {cs : CSys N} (cr : CReach c0 cs) (rc : RC s cs) (st : StepC c0 s s') :
     ∃ cs', (cs' = cs ∨ ∃ lab, CStep c0 lab cs cs') ∧ RC s' cs' := by
   cases st with
   | lift l1' h =>
     obtain ⟨h0, _⟩ := RSQ.reach_inv (creach_base cr)
-    obtain ⟨b', hst, r'⟩ := simL h0.ae_ok h0.p_nodes h0.p_llog rc.r h
-    rcases hst with e | hnq
-    · subst e
-      refine ⟨cs, Or.inl rfl, ⟨r', rc.applied, fun i hi => rc.pend i ?_⟩⟩
-      rw [← rc.r.role]; rw [← r'.role] at hi; exact hi
-    · obtain ⟨cs', cst, hb, hap, hp⟩ := nq_cstep (c0 := c0) hnq
-      refine ⟨cs', Or.inr ⟨_, cst⟩, ⟨by rw [hb]; exact r', fun i => by rw [hap]; exact rc.applied i, fun i hi => ?_⟩⟩
-      have hi' : (b'.nodes i).role = .leader := by rw [← hb, (show R _ cs'.base from by rw [hb]; exact r').role]; exact hi
-      obtain ⟨e1, e2⟩ := hp i hi'
-      rw [e1]; exact rc.pend i (by rw [← rc.r.role]; exact e2)
+    exact simC_nq rc (simL h0.ae_ok h0.p_nodes h0.p_llog rc.r h)
+  | snapSkip j src t k ents hm ht hnl hpos => exact simC_nq rc (sim_snapSkip rc.r j src t k ents hm ht hnl hpos)
   | setPend i p h =>
     refine ⟨cs, Or.inl rfl, ⟨rc.r, rc.applied, fun j hj => ?_⟩⟩
     by_cases hji : j = i
